@@ -9,6 +9,9 @@ const { SETS } = require('../lib/cfgset')
 const { Rng, hashStr, clip, chunk } = require('../lib/util')
 
 const DIRECTIVES = ["'use strict'", '"use strict"', "'other directive'", '"twelve chars!"', "'use strict'", "'don\\'t touch'", '"esc\\x41ped \\u0064irective"', "'line \\\ncontinuation'", "'use\\x20strict'", "''"]
+// statements that stand where a directive could stand but are NOT directives (they end the directive prologue and
+// must not turn into one: a template, a parenthesised string, a string followed by an operator)
+const PSEUDO = ['`use strict`', "('use strict')", "'use strict', 0", "'use strict'.length", 'String.raw`use strict`', "+'use strict'", "'use strict'\n+ ''", '`use strict` + 1']
 const lastReturn = (b, w) => { const i = b.lastIndexOf('return '); return b.slice(0, i) + w + b.slice(i + 7) }
 const FUNCS = [
   (d, b) => `function fn() { ${d} ${b} }\nw.out(fn.call(undefined));`,
@@ -53,14 +56,17 @@ function genCases (rng, count) {
     const instr = r.bool(0.7)
     const f = r.int(FUNCS.length)
     const sep = r.pick([';', ';', '\n'])
-    const d = dirs.map(x => x + sep).join(' ')
+    let d = dirs.map(x => x + sep).join(' ')
+    const pseudo = r.bool(0.25) ? r.pick(PSEUDO) : null
+    if (pseudo) d += ' ' + pseudo + ';'
     const head = r.pick(['', '', '// leading comment\n', '/* block */ ', '#!/usr/bin/env node\n'])
     const fileInstr = r.bool(0.5)
-    const fd = fileDirs.map(x => x + ';').join('\n')
+    const filePseudo = r.bool(0.15) ? r.pick(PSEUDO) : null
+    const fd = fileDirs.map(x => x + ';').join('\n') + (filePseudo ? '\n' + filePseudo + ';' : '')
     let code = `${head}${fd}\n{ var topLevelBlock = ${fileInstr ? 'w.s1 + w.f2()' : '1'}; w.out(topLevelBlock) }\n${FUNCS[f](d, instr ? BODY_INSTR : BODY_PLAIN)}\n`
     const module = head !== '#!/usr/bin/env node\n' && r.bool(0.15)
     if (module) code += 'export {}\n'
-    cases.push({ code, meta: { fn: f, dirs, fileDirs, instr, fileInstr, module, head: head.trim().slice(0, 12) } })
+    cases.push({ code, meta: { fn: f, dirs, fileDirs, instr, fileInstr, module, pseudo, filePseudo, head: head.trim().slice(0, 12) } })
   }
   return cases
 }
